@@ -151,6 +151,44 @@ def r04b(ctx, run):
                   sfn.file, m[0]["ln"], "a Data result must be emitted as global data of the captured bytes with the type's alignment")
 
 
+def r04e(ctx, run):
+    """every comptime block that eval_comptime_blocks runs gets a recorded result: in the evaluation loop no path from taking a block off the
+    work list back to the loop head avoids `results.insert`.  (A block without a recorded result is compiled again by the code generator, into
+    the binary: its side effects run a second time when the program runs.)"""
+    F = ctx.facts
+    fn = F.fn("codegen::compiler::comptime::eval_comptime_blocks")
+    U = "codegen::compiler::comptime::eval_comptime_blocks"
+    pops = [c for c in fn.calls() if short(c.callee) == "pop" and "Vec" in c.callee]
+    ins = [c for c in fn.calls() if short(c.callee) == "insert" and c.args and any(n.get("kind") == "param" and n.get("name") == "results" for n in walk_chain(fn.chain_operand(c.args[0], depth=6)))]
+    if not pops or not ins:
+        raise LookupError("work-list pop / results.insert in eval_comptime_blocks: %d / %d" % (len(pops), len(ins)))
+    lps = [(h, body) for h, body in fn.loops() if any(p.bb in body for p in pops) and any(i.bb in body for i in ins)]
+    if not lps:
+        raise LookupError("the evaluation loop of eval_comptime_blocks")
+    h, body = min(lps, key=lambda hb: len(hb[1]))
+    pop = [p for p in pops if p.bb in body][0]
+    # the pop must be what decides the loop (its None side leaves)
+    avoid = {i.bb for i in ins}
+    # search inside the loop body only: from the pop back to the header without an insert
+    seen, st, escape = set(), [pop.bb], None
+    while st and escape is None:
+        x = st.pop()
+        for y in fn.succ[x]:
+            if y not in body or y in avoid or fn.blocks[y].get("cleanup"):
+                continue
+            if y == h or y == pop.bb:
+                escape = x
+                break
+            if y not in seen:
+                seen.add(y)
+                st.append(y)
+    ln = fn.blocks[escape].get("ln") if escape is not None else None
+    run.check(escape is None, pop.site(), "every iteration of the evaluation loop records a result (%d insert sites; all paths back to the loop head pass one)" % len(ins), U, "result-recorded",
+              pop.file, pop.ln,
+              "a path through the evaluation loop (leaving from bb%s%s) goes on to the next comptime block without results.insert: the block was run by the JIT but has no "
+              "recorded result, so the code generator compiles it into the binary and its side effects happen again at run time" % (escape, (", line %s" % ln) if ln else ""))
+
+
 BITS = {"I8": 8, "I16": 16, "I32": 32, "I64": 64, "I128": 128, "F32": 32, "F64": 64}
 RBITS = {"u8": 8, "u16": 16, "u32": 32, "u64": 64, "u128": 128, "f32": 32, "f64": 64, "i8": 8, "i16": 16, "i32": 32, "i64": 64, "i128": 128}
 
@@ -279,6 +317,7 @@ def rules(ctx):
     return [
         Rule("R04.a", "address-bearing comptime results are rejected or relocated (top level and through aggregate members)", 16, r04a),
         Rule("R04.b", "all comptime blocks are evaluated before code generation, which receives those results and never recompiles an evaluated block", 9, r04b),
+        Rule("R04.e", "every comptime block the JIT runs gets a recorded result (must-pass-through results.insert in the evaluation loop)", 1, r04e),
         Rule("R04.d", "a comptime expression and its body are recorded at the same type (inference and weak-type replacement)", 2, r04d),
         Rule("R04.c", "capture table: read-back type width = Cranelift type width; serialisation at the recorded width", 20, r04c),
     ]
